@@ -18,6 +18,101 @@ pub fn state_with<P: Problem>(pops: Vec<Vec<Individual<P>>>, seed: u64) -> State
     state
 }
 
+thread_local! {
+    pub static SCRIPT: std::cell::RefCell<Vec<u64>> = const { std::cell::RefCell::new(Vec::new()) };
+}
+
+/// A generator backend that replays the thread's script and then behaves like ChaCha12.
+pub struct ScriptRng {
+    script: Vec<u64>,
+    pos: usize,
+    rest: rand_chacha::ChaCha12Rng,
+}
+impl rand::RngCore for ScriptRng {
+    fn next_u32(&mut self) -> u32 {
+        (self.next_u64() >> 32) as u32
+    }
+    fn next_u64(&mut self) -> u64 {
+        if self.pos < self.script.len() {
+            self.pos += 1;
+            self.script[self.pos - 1]
+        } else {
+            self.rest.next_u64()
+        }
+    }
+    fn fill_bytes(&mut self, dest: &mut [u8]) {
+        for chunk in dest.chunks_mut(8) {
+            let w = self.next_u64().to_le_bytes();
+            chunk.copy_from_slice(&w[..chunk.len()]);
+        }
+    }
+    fn try_fill_bytes(&mut self, dest: &mut [u8]) -> Result<(), rand::Error> {
+        self.fill_bytes(dest);
+        Ok(())
+    }
+}
+impl rand::SeedableRng for ScriptRng {
+    type Seed = [u8; 32];
+    fn from_seed(seed: Self::Seed) -> Self {
+        ScriptRng { script: SCRIPT.with(|s| s.borrow().clone()), pos: 0, rest: rand_chacha::ChaCha12Rng::from_seed(seed) }
+    }
+}
+
+
+/// The script of 64-bit words the generator of the case with this seed replays first: empty for three seeds in four,
+/// otherwise 1-12 words from a vocabulary of edge values (all zero, all one, the largest / smallest uniform floats, many
+/// leading zero bits, a zero low byte) mixed with arbitrary words. A pure function of the seed, so a case stays
+/// replayable from its seed alone.
+pub fn script_of(seed: u64) -> Vec<u64> {
+    fn mix(mut z: u64) -> u64 {
+        z = z.wrapping_add(0x9E37_79B9_7F4A_7C15);
+        z = (z ^ (z >> 30)).wrapping_mul(0xBF58_476D_1CE4_E5B9);
+        z = (z ^ (z >> 27)).wrapping_mul(0x94D0_49BB_1331_11EB);
+        z ^ (z >> 31)
+    }
+    let h = mix(seed ^ 0x5C21_9700);
+    if h % 4 != 0 {
+        return Vec::new();
+    }
+    let len = 1 + (h >> 8) % 12;
+    (0..len)
+        .map(|k| {
+            let r = mix(h.wrapping_add(k));
+            match (r >> 3) % 9 {
+                0 | 1 => 0,
+                2 | 3 => u64::MAX,
+                4 => r >> 13,
+                5 => r >> 41,
+                6 => r & !0xff,
+                7 => u64::MAX << 11,
+                _ => r,
+            }
+        })
+        .collect()
+}
+
+/// The generator for the case with this seed: `Random::new(seed)`, or (one seed in four) a generator whose backend first
+/// replays `script_of(seed)`. Only for oracles that hold for EVERY generator output (validity, exact relations), not for
+/// frequency tests.
+pub fn random_for(seed: u64) -> Random {
+    let script = script_of(seed);
+    if script.is_empty() {
+        Random::new(seed)
+    } else {
+        SCRIPT.with(|s| *s.borrow_mut() = script);
+        let r = Random::with_rng::<ScriptRng>(seed);
+        SCRIPT.with(|s| s.borrow_mut().clear());
+        r
+    }
+}
+
+/// `state_with` with the generator of `random_for`.
+pub fn state_with_scripted<P: Problem>(pops: Vec<Vec<Individual<P>>>, seed: u64) -> State<'static, P> {
+    let mut state = state_with(pops, seed);
+    state.insert(random_for(seed));
+    state
+}
+
 /// Number of nested scopes (0 for five keys in six, else 1-3) a component is executed in for the case with this key.
 pub fn nest_of(key: u64) -> u8 {
     let h = key.wrapping_mul(0x9E37_79B9_7F4A_7C15) >> 17;
